@@ -237,7 +237,7 @@ pub fn gen_pi_data(rng: &mut Rng, cfg: &GenCfg) -> Option<String> {
 }
 
 pub fn gen_pi_target(rng: &mut Rng) -> String {
-    rng.pick(&["pi", "target", "xm", "xml-stylesheet", "a", "_t", "é"])
+    rng.pick(&["pi", "target", "xm", "xml-stylesheet", "a", "_t", "é", "xml-model", "xmlx", "XML-y"])
         .to_string()
 }
 
